@@ -156,3 +156,14 @@ Example reachable_state_is_invariant_and_recoverable :
   let s := history current cL 0 [([], Some (12, VHalf)); ([], None)] empty_fs in
   Inv current cL s /\ fz s <> ZPartial.
 Proof. split; [apply inv_reachable | vm_compute; discriminate]. Qed.
+
+(* the hypothesis of C06_complete_once_repaired in its own form, and sane *)
+Example repaired_reachable_stored :
+  stored cDz 0 (history repaired cDz 0 [([], None); ([], Some (3, VHalf)); ([], Some (25, VEmpty))] empty_fs)
+  /\ sane cL /\ sane cD.
+Proof. split; [vm_compute; repeat split; reflexivity|]. split; intro H; [vm_compute; auto | discriminate H]. Qed.
+
+Example internal_kept_witness :
+  let s0 := run_full repaired cL 0 [] empty_fs in
+  eff_dir s0 Dill = Full (Gen 0) /\ eff_dir (run_full repaired cL 1 [] s0) Dill = Full (Gen 0).
+Proof. vm_compute. split; reflexivity. Qed.
